@@ -155,6 +155,8 @@ def replay(run, f, tv):
 def main():
     tier = sys.argv[1] if len(sys.argv) > 1 else "quick"
     run = Run(PID, tier)
+    from harness.lie import touch_all as _touch_all
+    _touch_all()        # first uses of the Lie API happen BEFORE the models are derived (see harness/lie.py)
     f = eqs()
     from harness import cas as _cas
     for _f in f.values():       # every estimator function once by position and by its documented argument names
